@@ -58,6 +58,8 @@ type World struct {
 	evMu        sync.Mutex
 	evLog       []agent.Event // verifPoint events reported by the agent
 	pendingWait func()
+	DdnMs    int       // notification interval set through the hook (0 = the code's 20 s)
+	t0       time.Time // start of the world (time stamps of report events)
 	HoldFar     time.Duration // C14: delay of farLookup add commands while a modification with SNDEM is processed
 	LastErr     string
 }
@@ -91,6 +93,7 @@ func NewWorld(dir, agentBin, tracePath string, cfg agent.Cfg, run int) (*World, 
 		UpTok: pfcpx.NewToks("u"), CpTok: pfcpx.NewToks("r"), markers: make(chan marker, 1024),
 		RespWait: 3 * time.Second, Quiet: 4 * time.Millisecond}
 	w.Bess = fakebess.New()
+	w.t0 = time.Now()
 
 	addr, err := w.Bess.Start("127.0.0.1:0")
 	if err != nil {
@@ -241,7 +244,7 @@ func (w *World) cfgJSON() map[string]interface{} {
 	return map[string]interface{}{
 		"dp": w.Cfg.Datapath, "node": "nU", "n4": pfcpx.V32(uint64(w.N4IP)), "access": pfcpx.V32(uint64(w.AccessIP)),
 		"core": pfcpx.V32(uint64(w.CoreIP)), "ueAlloc": w.Cfg.UEIPAlloc, "poolNet": pfcpx.V32(uint64(poolNet)), "poolLen": poolLen,
-		"endMarker": w.Cfg.EndMarker, "hb": w.Cfg.HBTimer, "qos": qos,
+		"endMarker": w.Cfg.EndMarker, "hb": w.Cfg.HBTimer, "qos": qos, "ddnMs": map[bool]int{true: w.DdnMs, false: 20000}[w.DdnMs > 0],
 	}
 }
 
@@ -306,6 +309,12 @@ func (w *World) StartAgent() error {
 	if !ready {
 		return fmt.Errorf("agent did not become ready (alive=%v): %s", w.Agent.Alive(), tailStr(w.Agent.Stderr(), 600))
 	}
+
+	// the probe's connection object must not stay behind (datapath reports are routed to "the" association)
+	probe.Drain()
+	_ = probe.Send(message.NewAssociationReleaseRequest(probe.NextSeq(), ie.NewNodeID("127.0.0.1", "", "")))
+	probe.WaitN(1, 500*time.Millisecond)
+	time.Sleep(15 * time.Millisecond)
 
 	for i := 0; i < 100 && !w.Agent.CtlConnected(); i++ {
 		time.Sleep(2 * time.Millisecond)
